@@ -15,8 +15,22 @@ def run(chk):
     tc.model_check(chk, chk.tier == "quick")
     tc.standard_plan(chk, "C03", "nt_C03")
     chk.assumptions.append("ids are compared literally for the simple trackers and modulo renaming for the batch trackers")
+    # R2: random free-world histories (moving, crossing, disappearing objects; lifecycle calls interleaved)
+    from checks import r2_common as r2
+    traces = []
+    for i in range(4 if chk.tier == "quick" else 120):
+        kind = ("sort", "visual", "batchsort", "batchvisual")[i % 4]
+        t = r2.record(chk, f"r2-{i}", kind, chk.seed * 1000 + 100 + i, steps=150 if chk.tier == "quick" else 400, shards=1 + i % 3,
+                      metric="iou" if i % 2 == 0 else "maha", max_idle=(0, 1, 2, 3)[i % 4], objects=3 + i % 2, spread=90,
+                      scenes="0,7,8" if i % 2 else "0,7")
+        chk.cov["evaluations"] += r2.trace_stats(t)["events"]
+        traces.append(t)
+    r2.validate_all(chk, traces, "C03")
     chk.finish(RULE, exhaustive=True)
 
 
 def replay(payload):
+    if payload.get("engine") == "r2-trace":
+        from checks import r2_common as r2
+        return r2.replay_trace("C03", payload)
     return tc.replay_payload("C03", payload)
